@@ -9,10 +9,10 @@ namespace Xs.Samples
 open Py
 
 /-- stable `classes.sort(key=lambda x: len(x.attrs), reverse=True)`:
-insertion keeps the original order among equal lengths -/
+`foldr` inserts right to left, so an earlier class goes in front of its equals -/
 def insertByLen (c : List Attr) : List (List Attr) → List (List Attr)
   | [] => [c]
-  | d :: ds => if d.length < c.length then c :: d :: ds else d :: insertByLen c ds
+  | d :: ds => if d.length ≤ c.length then c :: d :: ds else d :: insertByLen c ds
 
 def sortByLenDesc (cs : List (List Attr)) : List (List Attr) := cs.foldr insertByLen []
 
